@@ -404,7 +404,7 @@ pub fn run(run: &Run) {
         run.prop("history", 40, 8, case(3000), run_case);
     }
     let conc = (2u8..=16, run.tier.pick(20u16..60, 100u16..400), any::<bool>(), any::<bool>()).prop_map(|(threads, rounds, via_batch, distinct_hashes)| ConcCase { threads, rounds, via_batch, distinct_hashes });
-    run.prop("concurrent", run.tier.pick(24, 200), 1, conc, run_conc);
+    run.prop("concurrent", run.tier.pick(144, 800), 1, conc, run_conc);
 }
 
 pub fn replay(run: &Run, sub: &str, case: &Value) -> Option<bool> {
